@@ -289,7 +289,7 @@ def check(ctx):
     if closes and rr:
         ctx.inst('R5', ol, 'close-before-reraise', closes[0].lineno < rr[-1].lineno, 'close_links() must run before the re-raise')
     lam = [c for c in walk_own(ol.node) if method_call(c, 'parallel_safe')]
-    cp = callable_parts(m.cls(SW, 'Swarm'), lam[0].args[0]) if len(lam) == 1 and lam[0].args else None      # a lambda or a small method of the class
+    cp = callable_parts(m.cls(SW, 'Swarm'), lam[0].args[0], ol) if len(lam) == 1 and lam[0].args else None      # a lambda or a small method of the class
     okl = cp is not None and any(method_call(c, 'open_link') and norm(c.func.value) == cp[0] for b_ in cp[1] for c in ast.walk(b_))
     ctx.inst('R5', ol, 'opens-every-member', bool(okl), 'open_links must open every member through parallel_safe(lambda scf: scf.open_link())')
     cl = m.func(SW, 'Swarm.close_links')
